@@ -49,6 +49,10 @@ type doc struct {
 	// case sensitive), reported under their own key.
 	caseVariant bool
 	desc        string
+	// before: texts that are decoded and scanned (results discarded, errors
+	// expected for damaged ones) before the document itself: nothing decoded
+	// earlier may show in a later document.
+	before []string
 }
 
 type family struct {
@@ -453,7 +457,6 @@ func families(quick bool) []family {
 	if !quick {
 		chStyles = styles8
 	}
-	actNames := []string{"create", "modify", "delete"}
 	add("change-seq", []int{len(seqs), len(chStyles)}, func(d []int, _ int) doc {
 		s := seqs[d[0]]
 		b := xmlgen.NewB(d[0])
@@ -560,33 +563,7 @@ func families(quick bool) []family {
 	// action type, <old>+<new> of each diff action type.
 	wheres := []uint{xmlgen.IDAtElem, xmlgen.IDAtNdRef | xmlgen.IDAtMemberRef, xmlgen.IDAtChangeset, xmlgen.IDAtAll}
 	add("id-range", []int{len(xmlgen.IDRange), 3, 10, len(wheres), 2}, func(d []int, _ int) doc {
-		b := xmlgen.NewB(47)
-		id := xmlgen.IDRange[d[0]]
-		kind := xmlgen.KindNode + d[1]
-		forced := func() xmlgen.Obj {
-			b.ForceID, b.ForceWhere = &id, wheres[d[3]]
-			o := b.Full(kind)
-			b.ForceID = nil
-			return o
-		}
-		st := styles8[d[4]*3]
-		desc := fmt.Sprintf("id %d kind %s placement %d where %#x", id, xmlgen.KindNames[kind], d[2], wheres[d[3]])
-		switch pl := d[2]; {
-		case pl == 0:
-			x := b.OSMDocOf(1, []xmlgen.Obj{b.Small(kind), forced(), b.Small(kind)})
-			return doc{kind: "osm", root: x.Root, want: x.Want, order: x.Order, style: st, desc: desc}
-		case pl <= 3:
-			x := b.ChangeDocOf(1, []xmlgen.Block{{Action: actNames[pl-1], Objs: []xmlgen.Obj{b.Small(kind), forced(), b.Small(xmlgen.KindNode)}}})
-			return doc{kind: "osmChange", root: x.Root, want: x.Want, order: x.Order, style: st, desc: desc}
-		case pl <= 6:
-			o := forced()
-			n := b.Small(xmlgen.KindNode)
-			x := b.DiffDocOf([]xmlgen.ActionCfg{{Type: actNames[pl-4], Direct: &o}, {Type: "create", Direct: &n}}, nil)
-			return doc{kind: "diff", root: x.Root, want: x.Want, order: x.Order, style: st, desc: desc}
-		default:
-			x := b.DiffDocOf([]xmlgen.ActionCfg{{Type: actNames[pl-7], HasOld: true, Old: []xmlgen.Obj{forced()}, HasNew: true, New: []xmlgen.Obj{forced()}}}, nil)
-			return doc{kind: "diff", root: x.Root, want: x.Want, order: x.Order, style: st, desc: desc}
-		}
+		return idRangeDoc(xmlgen.IDRange[d[0]], xmlgen.KindNode+d[1], d[2], wheres[d[3]], styles8[d[4]*3])
 	})
 
 	// ---------------------------------------------------------- spellings of numbers and booleans
@@ -648,7 +625,491 @@ func families(quick bool) []family {
 		x.desc = "unknown element <" + odd.Name + ">"
 		return x
 	})
+
+	// ---------------------------------------------------------- boundary values in every numeric / boolean / time position
+	// Every integer, decimal, timestamp, note date and boolean position of a
+	// complete object gets, one position at a time, every boundary class of its
+	// type (xmlgen.IntClasses, FloatClasses, TimeClasses, NoteDateClasses,
+	// BoolClasses), and then all positions at once (an element whose numbers are
+	// all 0, all 2^63-1, ...). Not in the alphabet, because the property's text
+	// does not decide them: numbers padded with white space, booleans spelled
+	// 1/0, NaN/Inf, lower-case t/z in timestamps, note dates in other zones.
+	valStyles := []xmlgen.Style{{}, {Layout: xmlgen.LayoutProlog, Order: 1, Single: true}}
+	for kind := 0; kind < xmlgen.NumKinds; kind++ {
+		kind := kind
+		probe := xmlgen.NewB(53)
+		probe.Full(kind)
+		types := probe.NumTypes()
+		type pc struct{ pos, class int }
+		var pcs []pc
+		for p, t := range types {
+			for c := 0; c < xmlgen.NumClassCount(t); c++ {
+				pcs = append(pcs, pc{p + 1, c})
+			}
+		}
+		for c := 0; c < len(xmlgen.IntClasses); c++ {
+			pcs = append(pcs, pc{xmlgen.NumAll, c})
+		}
+		add("value-"+xmlgen.KindNames[kind], []int{len(pcs), len(valStyles)}, func(d []int, _ int) doc {
+			b := xmlgen.NewB(53)
+			b.NumPos, b.NumClass = pcs[d[0]].pos, pcs[d[0]].class
+			o := b.Full(kind)
+			dd := single(b, o, valStyles[d[1]])
+			dd.desc = fmt.Sprintf("value position %d class %d", b.NumPos, b.NumClass)
+			return dd
+		})
+	}
+
+	// ---------------------------------------------------------- more text classes and reference spellings in every string position
+	// (class, entity style) pairs outside the product of the text-* families:
+	// white space only, ~4.6 KB, edge code points, "0"; references with leading
+	// zeros and lower-case hexadecimal digits.
+	type ce struct{ class, entity int }
+	var ces []ce
+	for c := 0; c < xmlgen.NumTextClassesExt; c++ {
+		for e := 0; e < xmlgen.NumEntityStylesExt; e++ {
+			if quick && c == xmlgen.TextLong && (e == xmlgen.EntDec || e == xmlgen.EntHex) {
+				continue // quick: the long text with named, CDATA and padded references only
+			}
+			if c >= xmlgen.NumTextClasses || e >= xmlgen.NumEntityStyles {
+				ces = append(ces, ce{c, e})
+			}
+		}
+	}
+	textxLayouts := textLayouts
+	if quick {
+		textxLayouts = []int{xmlgen.LayoutCompact}
+	}
+	for kind := xmlgen.KindNode; kind < xmlgen.NumKinds; kind++ {
+		kind := kind
+		probe := xmlgen.NewB(1)
+		probe.Full(kind)
+		npos := probe.Positions()
+		add("textx-"+xmlgen.KindNames[kind], []int{npos, len(ces), 2, len(textxLayouts)}, func(d []int, _ int) doc {
+			b := xmlgen.NewB(1)
+			b.TextPos, b.TextClass = d[0], ces[d[1]].class
+			o := b.Full(kind)
+			dd := single(b, o, xmlgen.Style{Layout: textxLayouts[d[3]], Entity: ces[d[1]].entity, Single: d[2] == 1})
+			dd.desc = fmt.Sprintf("string position %d class %d", d[0], ces[d[1]].class)
+			return dd
+		})
+	}
+	add("textx-root", []int{xmlgen.NumRootAttrs + 2, len(ces), 2, 3}, func(d []int, _ int) doc {
+		b := xmlgen.NewB(1)
+		b.TextPos, b.TextClass = d[0], ces[d[1]].class
+		st := xmlgen.Style{Entity: ces[d[1]].entity, Single: d[2] == 1}
+		switch d[3] {
+		case 0:
+			x := b.OSMDocOf(31, []xmlgen.Obj{b.Small(xmlgen.KindNode)})
+			return doc{kind: "osm", root: x.Root, want: x.Want, order: x.Order, style: st}
+		case 1:
+			x := b.ChangeDocOf(31, []xmlgen.Block{{Action: "modify", Objs: []xmlgen.Obj{b.Small(xmlgen.KindNode)}}})
+			return doc{kind: "osmChange", root: x.Root, want: x.Want, order: x.Order, style: st}
+		}
+		n := b.Small(xmlgen.KindNode)
+		x := b.DiffDocOf([]xmlgen.ActionCfg{{Type: "create", Direct: &n}}, nil)
+		return doc{kind: "diff", root: x.Root, want: x.Want, order: x.Order, style: st}
+	})
+
+	// ---------------------------------------------------------- more layouts: DOCTYPE, byte order mark, namespace declarations
+	for _, bs := range bases {
+		bs := bs
+		add("layoutx-"+bs.name, []int{xmlgen.NumLayoutsExt - xmlgen.NumLayouts, 2, xmlgen.NumEntityStylesExt, 2}, func(d []int, _ int) doc {
+			x := bs.mk()
+			x.style = xmlgen.Style{Layout: xmlgen.NumLayouts + d[0], SelfClose: d[1] == 1, Entity: d[2], Single: d[3] == 1, Order: d[2]}
+			return x
+		})
+	}
+
+	// ---------------------------------------------------------- unknown attributes / elements with names close to known ones, at every position
+	for _, bs := range bases {
+		bs := bs
+		as, ks := xmlgen.UnknownSlots(bs.mk().root)
+		add("unknown-attrx-"+bs.name, []int{as, len(xmlgen.UnknownAttrsExt)}, func(d []int, _ int) doc {
+			x := bs.mk()
+			x.root = xmlgen.WithUnknownAttrOf(x.root, d[0], xmlgen.UnknownAttrsExt[d[1]])
+			x.style = styles8[(d[0]+d[1])%len(styles8)]
+			x.style.Order = d[0] % 4
+			x.desc = "unknown attribute " + xmlgen.UnknownAttrsExt[d[1]].Name
+			return x
+		})
+		add("unknown-elemx-"+bs.name, []int{ks, xmlgen.NumUnknownKidsExt, 2}, func(d []int, _ int) doc {
+			x := bs.mk()
+			u := xmlgen.UnknownKidExt(d[1])
+			x.root = xmlgen.WithUnknownKidOf(x.root, d[0], u)
+			x.style = styles8[d[2]*3]
+			x.desc = "unknown element <" + u.Name + ">"
+			return x
+		})
+	}
+
+	// ---------------------------------------------------------- more boundary ids and one more place (uid)
+	// (id, place) pairs outside the product of the id-range family: zero, the
+	// units, 127/128, 2^31-1, 2^32, 2^40-1, -2^40, 2^53, 2^53+1, the int64 limits
+	// in the four places, and every id in the uid attributes.
+	wheresX := append(append([]uint(nil), wheres...), xmlgen.IDAtUID)
+	type iw struct {
+		id    int64
+		where uint
+	}
+	var iws []iw
+	for i, id := range xmlgen.IDRangeExt {
+		for w, where := range wheresX {
+			if i >= len(xmlgen.IDRange) || w >= len(wheres) {
+				iws = append(iws, iw{id, where})
+			}
+		}
+	}
+	idxStyles := 2
+	if quick {
+		idxStyles = 1
+	}
+	add("id-range-ext", []int{len(iws), 3, 10, idxStyles}, func(d []int, _ int) doc {
+		return idRangeDoc(iws[d[0]].id, xmlgen.KindNode+d[1], d[2], iws[d[0]].where, styles8[d[3]*3])
+	})
+
+	// ---------------------------------------------------------- list lengths: 255, 256, 257; 2001 (and 65537 in the thorough tier)
+	const numLongShapes = 14
+	add("list-length", []int{numLongShapes, 3, 2}, func(d []int, _ int) doc {
+		dd := longDoc(d[0], 255+d[1])
+		dd.style = styles8[d[2]*3]
+		dd.desc = fmt.Sprintf("list shape %d length %d", d[0], 255+d[1])
+		return dd
+	})
+	lens := []int{2001} // one more than the API's limit of nodes per way
+	lenStyles := 1
+	if !quick {
+		lens, lenStyles = []int{2001, 65537}, 2
+	}
+	add("list-length-long", []int{numLongShapes, len(lens), lenStyles}, func(d []int, _ int) doc {
+		dd := longDoc(d[0], lens[d[1]])
+		dd.style = styles8[d[2]*3]
+		dd.desc = fmt.Sprintf("list shape %d length %d", d[0], lens[d[1]])
+		return dd
+	})
+
+	// ---------------------------------------------------------- repeated and reordered elements
+	add("repeat", []int{numRepeatShapes, 2}, func(d []int, _ int) doc {
+		dd := repeatDoc(d[0])
+		dd.style = styles8[d[1]*3]
+		return dd
+	})
+
+	// ---------------------------------------------------------- member types beyond node/way/relation, orientation 0
+	memTypes := []string{"", "changeset", "bounds", "user", "note"}
+	add("member-ext", []int{len(memTypes), 3, 3, 2, 2}, func(d []int, _ int) doc {
+		m := xmlgen.MemberCfg{Attrs: 255, Type: d[1], Orient: d[2], TypeText: memTypes[d[0]]}
+		if d[3] == 1 {
+			m.Nds = []uint{1, 0b11001}
+		}
+		b := xmlgen.NewB(59)
+		e, v := b.Relation(xmlgen.RelationCfg{Attrs: 1, Members: []xmlgen.MemberCfg{m, {Attrs: 255, Type: 1, Orient: 2}, m}})
+		return single(b, obj(xmlgen.KindRelation, e, v), styles8[d[4]*3])
+	})
+
+	// ---------------------------------------------------------- tags with k / v present or absent
+	add("tag-shape", []int{4, 4, 2}, func(d []int, _ int) doc {
+		b := xmlgen.NewB(61)
+		o := b.Full(xmlgen.KindNode + d[0])
+		// the first <tag> child and the first expected tag lose k (bit 0 clear) and / or v (bit 1 clear)
+		var tags osm.Tags
+		switch v := o.Val.(type) {
+		case *osm.Node:
+			tags = v.Tags
+		case *osm.Way:
+			tags = v.Tags
+		case *osm.Relation:
+			tags = v.Tags
+		case *osm.Changeset:
+			tags = v.Tags
+		}
+		for _, k := range o.Elem.Kids {
+			if k.Name != "tag" {
+				continue
+			}
+			var at []xmlgen.Attr
+			if d[1]&1 != 0 {
+				at = append(at, k.Attrs[0])
+			} else {
+				tags[0].Key = ""
+			}
+			if d[1]&2 != 0 {
+				at = append(at, k.Attrs[1])
+			} else {
+				tags[0].Value = ""
+			}
+			k.Attrs = at
+			break
+		}
+		dd := single(b, o, styles8[d[2]*3])
+		dd.desc = fmt.Sprintf("first tag with k/v mask %d", d[1])
+		return dd
+	})
+
+	// ---------------------------------------------------------- augmented diffs: no action, 0-2 changesets, changesets first
+	add("diff-shape", []int{3, 3, 2, 2}, func(d []int, _ int) doc {
+		b := xmlgen.NewB(67)
+		var acts []xmlgen.ActionCfg
+		for i := 0; i < d[0]; i++ {
+			acts = append(acts, mkAction(b, i, 1-i, 2*i, 3*i, false))
+		}
+		var cs []xmlgen.Obj
+		for i := 0; i < d[1]; i++ {
+			cs = append(cs, b.Small(xmlgen.KindChangeset))
+		}
+		x := b.DiffDocOf(acts, cs)
+		if d[2] == 1 && d[1] > 0 {
+			// the changesets before the actions
+			n, k := len(x.Root.Kids), d[1]
+			x.Root.Kids = append(append([]*xmlgen.Elem(nil), x.Root.Kids[n-k:]...), x.Root.Kids[:n-k]...)
+			m := len(x.Order)
+			x.Order = append(append([]osm.Object(nil), x.Order[m-k:]...), x.Order[:m-k]...)
+		}
+		return doc{kind: "diff", root: x.Root, want: x.Want, order: x.Order, style: styles8[d[3]*3]}
+	})
+
+	// ---------------------------------------------------------- a document after other documents
+	// Before the document, a sibling with the same ids but other strings, times
+	// and coordinates is decoded and scanned, and so is a truncated (failing)
+	// text of the document itself: every call starts from nothing.
+	add("sequence", []int{len(bases), 2}, func(d []int, _ int) doc {
+		x := bases[d[0]].mk()
+		x.style = styles8[d[1]*3]
+		text := xmlgen.Render(x.root, x.style)
+		sib := strings.NewReplacer("mapper", "other", "editor", "other", "value", "wert", ".", ".1", "T0", "T1", "Some Mapper", "Nobody").Replace(text)
+		x.before = []string{sib, text[:len(text)*2/3], text[:len(text)-3]}
+		return x
+	})
 	return fs
+}
+
+var actNames = []string{"create", "modify", "delete"}
+
+// idRangeDoc puts a complete object of the kind, with id in the places of
+// where, into placement pl: <osm>, one of the osmChange blocks, a bare element
+// in each diff action type, <old>+<new> of each diff action type.
+func idRangeDoc(id int64, kind, pl int, where uint, st xmlgen.Style) doc {
+	b := xmlgen.NewB(47)
+	forced := func() xmlgen.Obj {
+		b.ForceID, b.ForceWhere = &id, where
+		o := b.Full(kind)
+		b.ForceID = nil
+		return o
+	}
+	desc := fmt.Sprintf("id %d kind %s placement %d where %#x", id, xmlgen.KindNames[kind], pl, where)
+	switch {
+	case pl == 0:
+		x := b.OSMDocOf(1, []xmlgen.Obj{b.Small(kind), forced(), b.Small(kind)})
+		return doc{kind: "osm", root: x.Root, want: x.Want, order: x.Order, style: st, desc: desc}
+	case pl <= 3:
+		x := b.ChangeDocOf(1, []xmlgen.Block{{Action: actNames[pl-1], Objs: []xmlgen.Obj{b.Small(kind), forced(), b.Small(xmlgen.KindNode)}}})
+		return doc{kind: "osmChange", root: x.Root, want: x.Want, order: x.Order, style: st, desc: desc}
+	case pl <= 6:
+		o := forced()
+		n := b.Small(xmlgen.KindNode)
+		x := b.DiffDocOf([]xmlgen.ActionCfg{{Type: actNames[pl-4], Direct: &o}, {Type: "create", Direct: &n}}, nil)
+		return doc{kind: "diff", root: x.Root, want: x.Want, order: x.Order, style: st, desc: desc}
+	default:
+		x := b.DiffDocOf([]xmlgen.ActionCfg{{Type: actNames[pl-7], HasOld: true, Old: []xmlgen.Obj{forced()}, HasNew: true, New: []xmlgen.Obj{forced()}}}, nil)
+		return doc{kind: "diff", root: x.Root, want: x.Want, order: x.Order, style: st, desc: desc}
+	}
+}
+
+func ones(n int) []uint {
+	out := make([]uint, n)
+	for i := range out {
+		out[i] = 1
+	}
+	return out
+}
+
+// longDoc builds a document with one list of length n.
+func longDoc(shape, n int) doc {
+	b := xmlgen.NewB(71)
+	osmOf := func(o xmlgen.Obj) doc {
+		return single(b, o, xmlgen.Style{})
+	}
+	switch shape {
+	case 0: // <nd> of a way
+		e, v := b.Way(xmlgen.WayCfg{Attrs: 1, Nds: ones(n), Tags: 1})
+		return osmOf(obj(xmlgen.KindWay, e, v))
+	case 1: // <member> of a relation
+		ms := make([]xmlgen.MemberCfg, n)
+		for i := range ms {
+			ms[i] = xmlgen.MemberCfg{Attrs: 7, Type: i}
+		}
+		e, v := b.Relation(xmlgen.RelationCfg{Attrs: 1, Members: ms, Tags: 1})
+		return osmOf(obj(xmlgen.KindRelation, e, v))
+	case 2: // <nd> of a member
+		e, v := b.Relation(xmlgen.RelationCfg{Attrs: 1, Members: []xmlgen.MemberCfg{{Attrs: 7, Type: 1, Nds: ones(n)}, {Attrs: 7, Type: 0}}})
+		return osmOf(obj(xmlgen.KindRelation, e, v))
+	case 3: // tags of a node
+		e, v := b.Node(xmlgen.NodeCfg{Attrs: 7, Tags: n})
+		return osmOf(obj(xmlgen.KindNode, e, v))
+	case 4: // tags of a way, interleaved with its nds
+		e, v := b.Way(xmlgen.WayCfg{Attrs: 1, Nds: ones(n), Tags: n, Arrange: 2})
+		return osmOf(obj(xmlgen.KindWay, e, v))
+	case 5: // tags of a relation
+		e, v := b.Relation(xmlgen.RelationCfg{Attrs: 1, Members: []xmlgen.MemberCfg{{Attrs: 7}}, Tags: n})
+		return osmOf(obj(xmlgen.KindRelation, e, v))
+	case 6: // tags and discussion comments of a changeset
+		cm := make([]uint, n)
+		for i := range cm {
+			cm[i] = uint(i) % 16
+		}
+		e, v := b.Changeset(xmlgen.ChangesetCfg{Attrs: 1, Tags: n, Discussion: 1, Comments: cm})
+		return osmOf(obj(xmlgen.KindChangeset, e, v))
+	case 7: // comments of a note
+		cm := make([]uint, n)
+		for i := range cm {
+			cm[i] = uint(i) % 128
+		}
+		e, v := b.Note(xmlgen.NoteCfg{Parts: 7, HasComments: true, Comments: cm})
+		return osmOf(obj(xmlgen.KindNote, e, v))
+	case 8: // languages of a user
+		c := xmlgen.FullUser()
+		c.Langs = n
+		e, v := b.User(c)
+		return osmOf(obj(xmlgen.KindUser, e, v))
+	case 9: // updates of a way
+		up := make([]uint, n)
+		for i := range up {
+			up[i] = uint(i) % 128
+		}
+		e, v := b.Way(xmlgen.WayCfg{Attrs: 1, Nds: []uint{1, 1}, Updates: up})
+		return osmOf(obj(xmlgen.KindWay, e, v))
+	case 10: // objects of an <osm> document, kinds cycling
+		var objs []xmlgen.Obj
+		for i := 0; i < n; i++ {
+			objs = append(objs, b.Small(xmlgen.KindNode+i%(xmlgen.NumKinds-1)))
+		}
+		x := b.OSMDocOf(1, objs)
+		return doc{kind: "osm", root: x.Root, want: x.Want, order: x.Order}
+	case 11: // blocks of an osmChange, actions cycling, 0-2 objects each
+		var blocks []xmlgen.Block
+		for i := 0; i < n; i++ {
+			var objs []xmlgen.Obj
+			for j := 0; j < i%3; j++ {
+				objs = append(objs, b.Small(xmlgen.KindNode+(i+j)%3))
+			}
+			blocks = append(blocks, xmlgen.Block{Action: actNames[i%3], Objs: objs})
+		}
+		x := b.ChangeDocOf(1, blocks)
+		return doc{kind: "osmChange", root: x.Root, want: x.Want, order: x.Order}
+	case 12: // objects of one osmChange block
+		var objs []xmlgen.Obj
+		for i := 0; i < n; i++ {
+			objs = append(objs, b.Small(xmlgen.KindNode+i%3))
+		}
+		x := b.ChangeDocOf(1, []xmlgen.Block{{Action: "modify", Objs: objs}, {Action: "delete", Objs: []xmlgen.Obj{b.Small(xmlgen.KindWay)}}})
+		return doc{kind: "osmChange", root: x.Root, want: x.Want, order: x.Order}
+	}
+	// actions of an augmented diff: create with a bare element, modify and delete with old + new
+	var acts []xmlgen.ActionCfg
+	for i := 0; i < n; i++ {
+		k := xmlgen.KindNode + i%3
+		if i%3 == 0 {
+			o := b.Small(k)
+			acts = append(acts, xmlgen.ActionCfg{Type: "create", Direct: &o})
+		} else {
+			acts = append(acts, xmlgen.ActionCfg{Type: actNames[i%3], HasOld: true, Old: []xmlgen.Obj{b.Small(k)}, HasNew: true, New: []xmlgen.Obj{b.Small(k)}})
+		}
+	}
+	x := b.DiffDocOf(acts, []xmlgen.Obj{b.Small(xmlgen.KindChangeset)})
+	return doc{kind: "diff", root: x.Root, want: x.Want, order: x.Order}
+}
+
+const numRepeatShapes = 12
+
+// repeatDoc builds documents in which something occurs twice or in an
+// unusual order. The element tree and the expected value are edited in the
+// same way, side by side.
+func repeatDoc(shape int) doc {
+	b := xmlgen.NewB(73)
+	osmOf := func(desc string, objs ...xmlgen.Obj) doc {
+		x := b.OSMDocOf(1, objs)
+		return doc{kind: "osm", root: x.Root, want: x.Want, order: x.Order, desc: desc}
+	}
+	kidsNamed := func(e *xmlgen.Elem, name string) []int {
+		var idx []int
+		for i, k := range e.Kids {
+			if k.Name == name {
+				idx = append(idx, i)
+			}
+		}
+		return idx
+	}
+	switch shape {
+	case 0: // closed way: the last nd repeats the first
+		e, v := b.Way(xmlgen.WayCfg{Attrs: 1, Nds: []uint{1, 1, 1, 1}, Tags: 1})
+		nd := kidsNamed(e, "nd")
+		e.Kids[nd[3]] = e.Kids[nd[0]].Clone()
+		v.Nodes[3] = v.Nodes[0]
+		return osmOf("closed way", obj(xmlgen.KindWay, e, v), b.Small(xmlgen.KindWay))
+	case 1: // every nd is the same annotated node
+		e, v := b.Way(xmlgen.WayCfg{Attrs: 1, Nds: []uint{31, 31, 31}})
+		nd := kidsNamed(e, "nd")
+		for _, i := range nd[1:] {
+			e.Kids[i] = e.Kids[nd[0]].Clone()
+		}
+		v.Nodes[1], v.Nodes[2] = v.Nodes[0], v.Nodes[0]
+		return osmOf("way of one repeated nd", obj(xmlgen.KindWay, e, v))
+	case 2: // the same key twice with different values, and one tag twice
+		e, v := b.Node(xmlgen.NodeCfg{Attrs: 7, Tags: 4})
+		tg := kidsNamed(e, "tag")
+		e.Kids[tg[1]].Attrs[0].Val = e.Kids[tg[0]].Attrs[0].Val
+		v.Tags[1].Key = v.Tags[0].Key
+		e.Kids[tg[3]] = e.Kids[tg[2]].Clone()
+		v.Tags[3] = v.Tags[2]
+		return osmOf("duplicate tag keys and duplicate tags", obj(xmlgen.KindNode, e, v), b.Small(xmlgen.KindNode))
+	case 3: // the same member twice, next to each other and apart
+		e, v := b.Relation(xmlgen.RelationCfg{Attrs: 1, Members: []xmlgen.MemberCfg{{Attrs: 255, Type: 1, Nds: []uint{1, 1}}, {Attrs: 7, Type: 1}, {Attrs: 7, Type: 0}, {Attrs: 7, Type: 1}}})
+		m := kidsNamed(e, "member")
+		e.Kids[m[1]] = e.Kids[m[0]].Clone()
+		v.Members[1] = v.Members[0]
+		e.Kids[m[3]] = e.Kids[m[0]].Clone()
+		v.Members[3] = v.Members[0]
+		return osmOf("repeated members", obj(xmlgen.KindRelation, e, v))
+	case 4, 5, 6: // the same element text twice in a row, then once more after another one
+		kind := xmlgen.KindNode + shape - 4
+		o, other := b.Full(kind), b.Small(kind)
+		return osmOf("the same "+xmlgen.KindNames[kind]+" three times", o, o, other, o)
+	case 7: // one id in three versions, newest first (history order reversed)
+		id := int64(4242)
+		b.ForceID, b.ForceWhere = &id, xmlgen.IDAtElem
+		o1, o2, o3 := b.Full(xmlgen.KindNode), b.Full(xmlgen.KindNode), b.Full(xmlgen.KindNode)
+		b.ForceID = nil
+		return osmOf("one node id, versions descending", o3, o2, o1)
+	case 8: // ids descending, kinds in reverse of the canonical order
+		var objs []xmlgen.Obj
+		for k := xmlgen.KindNode; k < xmlgen.NumKinds; k++ {
+			objs = append(objs, b.Small(k), b.Small(k), b.Small(k))
+		}
+		for i, j := 0, len(objs)-1; i < j; i, j = i+1, j-1 {
+			objs[i], objs[j] = objs[j], objs[i]
+		}
+		return osmOf("descending ids", objs...)
+	case 9: // the same language twice
+		c := xmlgen.FullUser()
+		c.Langs = 3
+		e, v := b.User(c)
+		for _, k := range e.Kids {
+			if k.Name == "languages" {
+				k.Kids[2] = k.Kids[0].Clone()
+			}
+		}
+		v.Languages[2] = v.Languages[0]
+		return osmOf("repeated language", obj(xmlgen.KindUser, e, v))
+	case 10: // old and new of a diff action hold the same element; the same action twice
+		o := b.Full(xmlgen.KindWay)
+		a := xmlgen.ActionCfg{Type: "modify", HasOld: true, Old: []xmlgen.Obj{o}, HasNew: true, New: []xmlgen.Obj{o}}
+		x := b.DiffDocOf([]xmlgen.ActionCfg{a, a}, nil)
+		return doc{kind: "diff", root: x.Root, want: x.Want, order: x.Order, desc: "identical old and new, action repeated"}
+	}
+	// the same element in create, modify and delete of one osmChange, and twice in one block
+	o := b.Full(xmlgen.KindNode)
+	x := b.ChangeDocOf(1, []xmlgen.Block{{Action: "create", Objs: []xmlgen.Obj{o, o}}, {Action: "modify", Objs: []xmlgen.Obj{o}}, {Action: "delete", Objs: []xmlgen.Obj{o}}, {Action: "create", Objs: []xmlgen.Obj{o}}})
+	return doc{kind: "osmChange", root: x.Root, want: x.Want, order: x.Order, desc: "one element in every block"}
 }
 
 func rep(v, n int) []int {
@@ -692,6 +1153,25 @@ func checkDoc(r *kit.Run, c Case, d doc) {
 	}
 	info := fmt.Sprintf("%+v %s [%s]", c, d.desc, d.style)
 
+	// documents decoded earlier (some of them damaged) leave nothing behind
+	for _, t := range d.before {
+		guard(func() error {
+			switch d.kind {
+			case "osm":
+				xml.Unmarshal([]byte(t), &osm.OSM{})
+			case "osmChange":
+				xml.Unmarshal([]byte(t), &osm.Change{})
+			case "diff":
+				xml.Unmarshal([]byte(t), &osm.Diff{})
+			}
+			pre := osmxml.New(context.Background(), strings.NewReader(t))
+			for pre.Scan() {
+			}
+			pre.Close()
+			return nil
+		})
+	}
+
 	// (a) whole-document decode equals the model
 	var got interface{}
 	switch d.kind {
@@ -724,31 +1204,89 @@ func checkDoc(r *kit.Run, c Case, d doc) {
 		return
 	}
 
-	// (b) the streaming scanner yields the model's objects in document order
-	sc := osmxml.New(context.Background(), bytes.NewReader([]byte(text)))
-	var objs []osm.Object
+	// (b) the streaming scanner yields the model's objects in document order.
+	// Two scanners read the same text in lock step: the first from a reader
+	// that hands out everything at once, the second (made with a nil context)
+	// from a reader that hands out 1, 2, 3, 5, 8, ... bytes per call, so that
+	// tokens straddle the refills. What a scanner yields may depend neither on
+	// how the bytes arrive nor on another scanner running next to it; Object()
+	// asked twice gives the same object; once Scan has returned false it keeps
+	// returning false.
+	var sc, sc2 *osmxml.Scanner
+	var objs, objs2 []osm.Object
+	again, again2 := false, false
+	// quick tier: the large presence lattices and the unknown-attribute /
+	// unknown-element families run one scanner only (see oneScanner); every
+	// other family, and the thorough tier everywhere, runs both
+	second := !(c.Tier == "quick" && oneScanner(c.Family))
+	if !second {
+		r.Add("documents_with_one_scanner_only_quick_tier", 1)
+	}
+	var err1, err2 error
 	_, pan := guard(func() error {
-		for sc.Scan() {
-			objs = append(objs, sc.Object())
+		sc = osmxml.New(context.Background(), bytes.NewReader([]byte(text)))
+		sc2 = osmxml.New(nil, &chunkReader{data: text}) //nolint:staticcheck // the nil context is the point
+		for more, more2 := true, second; more || more2; {
+			if more {
+				if more = sc.Scan(); more {
+					o := sc.Object()
+					if o2 := sc.Object(); o2 != o {
+						r.Violation(key("scan-object-twice", d, fmt.Sprintf("%T", o)), fmt.Sprintf("%s: Object() called twice after one Scan gave two different objects (object %d)\ndocument: %s", info, len(objs), clip(text, 700)), c)
+					}
+					objs = append(objs, o)
+				}
+			}
+			if more2 {
+				if more2 = sc2.Scan(); more2 {
+					objs2 = append(objs2, sc2.Object())
+				}
+			}
 		}
+		again, again2 = sc.Scan() || sc.Scan(), second && sc2.Scan()
+		err1, err2 = sc.Err(), sc2.Err()
+		sc.Close()
+		sc2.Close()
 		return nil
 	})
-	sc.Close()
 	if pan != "" {
 		r.Violation("scan-panic/"+d.kind, fmt.Sprintf("%s: osmxml.Scanner panicked after %d objects: %s\ndocument: %s", info, len(objs), pan, clip(text, 700)), c)
 		return
 	}
-	if err := sc.Err(); err != nil && err != osm.ErrScannerClosed && err != io.EOF {
-		r.Violation(key("scan-error", d, ""), fmt.Sprintf("%s: %v\ndocument: %s", info, err, clip(text, 700)), c)
+	if err1 != nil {
+		r.Violation(key("scan-error", d, ""), fmt.Sprintf("%s: %v\ndocument: %s", info, err1, clip(text, 700)), c)
 		return
 	}
+	if again || again2 {
+		r.Violation(key("scan-after-end", d, ""), fmt.Sprintf("%s: Scan returned true after it had returned false (%d objects before)\ndocument: %s", info, len(objs), clip(text, 700)), c)
+	}
+	ok1 := true
 	if len(objs) != len(d.order) {
+		ok1 = false
 		r.Violation(key("scan", d, "count"), fmt.Sprintf("%s: scanner yielded %d objects %v, document holds %d\ndocument: %s", info, len(objs), types(objs), len(d.order), clip(text, 700)), c)
 	} else {
 		for i := range objs {
 			if df := osmeq.Diff(d.order[i], objs[i]); df != "" {
+				ok1 = false
 				r.Violation(key("scan", d, fmt.Sprintf("%T.%s", d.order[i], osmeq.Path(df))), fmt.Sprintf("%s: object %d in document order: model != scanned at %s\ndocument: %s", info, i, df, clip(text, 700)), c)
 				break
+			}
+		}
+	}
+	// the second scanner is reported only where the first one was right: a
+	// difference is then due to the chunked reader, the nil context or the
+	// neighbour, not to the document
+	if ok1 && second {
+		switch {
+		case err2 != nil:
+			r.Violation(key("scan-chunked-error", d, ""), fmt.Sprintf("%s: second scanner (nil context, reader handing out 1,2,3,5,8,... bytes, run in lock step with the first): %v\ndocument: %s", info, err2, clip(text, 700)), c)
+		case len(objs2) != len(d.order):
+			r.Violation(key("scan-chunked", d, "count"), fmt.Sprintf("%s: second scanner (nil context, reader handing out 1,2,3,5,8,... bytes, run in lock step with the first) yielded %d objects %v, document holds %d\ndocument: %s", info, len(objs2), types(objs2), len(d.order), clip(text, 700)), c)
+		default:
+			for i := range objs2 {
+				if df := osmeq.Diff(d.order[i], objs2[i]); df != "" {
+					r.Violation(key("scan-chunked", d, fmt.Sprintf("%T.%s", d.order[i], osmeq.Path(df))), fmt.Sprintf("%s: second scanner (nil context, reader handing out 1,2,3,5,8,... bytes, run in lock step with the first), object %d in document order: model != scanned at %s\ndocument: %s", info, i, df, clip(text, 700)), c)
+					break
+				}
 			}
 		}
 	}
@@ -780,6 +1318,49 @@ func checkDoc(r *kit.Run, c Case, d doc) {
 	}
 }
 
+// oneScanner: the families that run a single scanner in the quick tier. They
+// hold most of the documents and vary what the other families hold once:
+// which attributes are present, where an unknown attribute or element sits,
+// which two diff actions meet.
+func oneScanner(family string) bool {
+	switch family {
+	case "changeset", "way", "relation", "osm-subsets", "diff-pair", "way-nd", "way-update", "relation-member",
+		"changeset-comment", "note-comment", "user-nested":
+		return true
+	}
+	return strings.HasPrefix(family, "unknown-")
+}
+
+// chunkReader hands out its data in pieces of 1, 2, 3, 5, 8, 13, 21, 34, 1, 2, ...
+// bytes; the last piece comes together with io.EOF.
+type chunkReader struct {
+	data string
+	off  int
+	k    int
+}
+
+var chunkSizes = [...]int{1, 2, 3, 5, 8, 13, 21, 34}
+
+func (c *chunkReader) Read(p []byte) (int, error) {
+	if c.off >= len(c.data) {
+		return 0, io.EOF
+	}
+	n := chunkSizes[c.k%len(chunkSizes)]
+	c.k++
+	if n > len(p) {
+		n = len(p)
+	}
+	if n > len(c.data)-c.off {
+		n = len(c.data) - c.off
+	}
+	copy(p, c.data[c.off:c.off+n])
+	c.off += n
+	if c.off >= len(c.data) {
+		return n, io.EOF
+	}
+	return n, nil
+}
+
 // guard runs f and turns a panic into a description instead of killing the run.
 func guard(f func() error) (err error, panicked string) {
 	defer func() {
@@ -806,9 +1387,17 @@ func main() {
 		r.Rule("complete mixed-radix products per family: per-kind presence lattices of every optional attribute/child (plus nested nd/update/member/comment lattices), " +
 			"child arrangements, every string position x text class x entity style x quoting, layouts x self-closing x quoting x attribute orders (all permutations up to 4 attributes, rotations of the order and of its reversal beyond), " +
 			"an unknown attribute / element at every position, <osm> over every subset of the 7 kinds x root attribute subsets x 3 orderings, osmChange over every sequence of <=4 action blocks x 0-2 elements per block, " +
-			"augmented diffs over type x direct element x old x new x order, boundary ids (-1, int32 limits, 2^31, 2^40, 2^40+1, 2^44+5, 2^62) x node/way/relation x {element id, nd/member refs, changeset ids, all} x every placement (<osm>, each osmChange block, bare element and old/new of each diff action type). A document is non-trivial when it holds at least one object; distinct = distinct (family, document text).")
+			"augmented diffs over type x direct element x old x new x order, boundary ids (-1, int32 limits, 2^31, 2^40, 2^40+1, 2^44+5, 2^62) x node/way/relation x {element id, nd/member refs, changeset ids, all} x every placement (<osm>, each osmChange block, bare element and old/new of each diff action type). " +
+			"Boundary audit: every integer / decimal / timestamp / note date / boolean position of a complete object of each kind x every boundary class of its type, one position at a time and all at once " +
+			"(integers 0, +-1, 127/128, 255/256, 2^15, 2^16, 2^31-1, 2^31, -2^31-1, 2^32-1, 2^32, 2^40-1, 2^40, 2^53, 2^53+1, int64 limits; 20 decimal spellings incl. 0, -0.0, +-90, +-180, no point, exponent, sign, 16-20 digits, denormal, max; " +
+			"instants: zero time, 1970, 1969, 1901, 2038, committed-at start, last int64 nanosecond and the day after, 9999, leap day, 1/3/9 digit fractions, -08:00 and +14:00; true/false); " +
+			"every string position x {white space only, 4.6 KB, edge code points, \"0\"} x 5 reference spellings and x zero-padded lower-case references for the older classes; DOCTYPE / byte order mark / xmlns layouts; unknown attributes and elements whose names are close to known ones (idx, ID, refs, la, empty value; nodes, tags, ndx, ids) at every position; " +
+			"12 more ids (0, 1, 127, 128, 2^31-1, 2^32, 2^40-1, -2^40, 2^53, 2^53+1, int64 limits) x place (also uid) x placement; lists of 255, 256, 257 and 2001 (thorough: 65537) nds, members, member nds, tags, comments, languages, updates, objects, blocks, actions; " +
+			"repeated nds / tags / members / languages / whole elements, descending ids and versions; member types beyond node/way/relation and orientation 0; tags without k or v; diffs with 0-2 actions x 0-2 changesets before or after; a document after a sibling and after damaged texts. " +
+			"Every document is scanned by two scanners in lock step (the second with a nil context and a reader handing out 1-34 bytes per call; quick tier: not for the large lattices, counted), Object() is asked twice, Scan is called again after the end. A document is non-trivial when it holds at least one object; distinct = distinct (family, document text).")
 		r.Assume("documents are written by gen/xmlgen (no encoding/xml, no /repo code); the expected values are assembled next to the text from the same constants; strconv.ParseFloat and package time are trusted for the value of a decimal / a calendar date")
 		r.Assume("equality is gen/osmeq: nil==empty, times as instants, an empty changeset discussion equals an absent one")
+		r.Assume("not in the alphabet because the property's text does not decide them: numbers padded with white space, booleans spelled 1/0, NaN/Inf, note dates in zones other than UTC or padded with white space, empty date elements, two <bounds> in one <osm>, several bare elements in one diff action, attributes or elements in a foreign namespace whose local name is an OSM name (x:id, x:node)")
 		r.Assume("clause scan is applied to all three document types: the scanner dispatches on element names wherever they occur, so its object stream is defined for osmChange and augmented diffs too")
 		fs := families(r.Quick())
 		if r.ReplayPath != "" {
